@@ -289,7 +289,7 @@ type Discharger struct {
 }
 
 func sanitizeFile(s string) string {
-	r := strings.NewReplacer("/", "_", "#", "-", "*", "", "(", "", ")", "", " ", "_")
+	r := strings.NewReplacer("/", "_", "#", "-", "*", "", "(", "", ")", "", " ", "_", "=", "-", ",", "_")
 	return r.Replace(s)
 }
 
@@ -663,6 +663,17 @@ func (d *Discharger) dischargeSplit(o *Obligation) {
 			for si, sp := range splits {
 				k := combo[si]
 				tags = append(tags, fmt.Sprintf("%s=%d", sp.Text, k))
+				if sp.Term.Op != "var" && sp.Term.Op != "const" {
+					// a compound split term: its occurrences fold to the case constant; the defining equation stays
+					for i := range h {
+						was := exactnessHyp[h[i].id]
+						h[i] = substTerm(h[i], sp.Term, mkInt(k))
+						if was {
+							exactnessHyp[h[i].id] = true
+						}
+					}
+					g = substTerm(g, sp.Term, mkInt(k))
+				}
 				h = append(h, mkEq(sp.Term, mkInt(k)))
 				if sp.Term.Op == "var" {
 					m := map[string]*Term{sp.Term.Name: mkInt(k)}
@@ -675,6 +686,9 @@ func (d *Discharger) dischargeSplit(o *Obligation) {
 					}
 					g = substVars(g, m)
 				}
+			}
+			if g.isFalse() && os.Getenv("GOVC_DEBUG") != "" {
+				fmt.Fprintf(os.Stderr, "DEBUG split %s: goal folds to false; original goal: %s\n", strings.Join(tags, ","), shortStr(o.Goal, 6000))
 			}
 			termMu.Unlock()
 			tag := strings.Join(tags, ",")
